@@ -196,7 +196,7 @@ func (d *Driver) sequence(t target, maxLen, steps int) {
 			checks = append(checks, c)
 		case kind < 5 && len(props) > 0: // update through the helper
 			a := props[d.rng.Intn(len(props))]
-			v := d.draw(a.Payload, maxLen)
+			v := d.drawProp(a.Payload, maxLen)
 			rec.Trace = append(rec.Trace, fmt.Sprintf("%s(%s)", a.Helper, short(v.Canon())))
 			h := method(helper, a.Helper)
 			args := fillArgs(h, parts(a, v), nil)
@@ -216,7 +216,7 @@ func (d *Driver) sequence(t target, maxLen, steps int) {
 			event(step, 0, subs[a.Key], v, mk)
 		case kind < 7 && len(props) > 0: // set through the proxy
 			a := props[d.rng.Intn(len(props))]
-			v := d.draw(a.Payload, maxLen)
+			v := d.drawProp(a.Payload, maxLen)
 			rec.Trace = append(rec.Trace, fmt.Sprintf("%s(%s)", a.Set, short(v.Canon())))
 			set := method(t.proxy, a.Set)
 			args := fillArgs(set, []*wg.Val{v}, nil)
